@@ -18,9 +18,10 @@ import os, re, sys, stat, hashlib, shutil, tempfile, time
 from vlib import common as C
 from vlib import realbin as R
 
-sys.path.insert(0, os.path.join(C.VERIF, 'translator'))
-sys.path.insert(0, os.path.join(C.VERIF, 'translator', 'gens'))
-import inventory as INV
+# loaded by path: putting translator/gens on sys.path would shadow the standard modules `base64` and `http` with the translators of the same name
+import importlib.util as _ilu
+_spec = _ilu.spec_from_file_location('rws_translator_inventory', os.path.join(C.VERIF, 'translator', 'gens', 'inventory.py'))
+INV = _ilu.module_from_spec(_spec); _spec.loader.exec_module(INV)
 
 # ----------------------------------------------------------------------------- (a) effect inventory
 def effect_inventory():
